@@ -546,8 +546,8 @@ func dhcpJobs(tier string) []Job {
 	var jobs []Job
 	for mode := int64(1); mode <= 3; mode++ {
 		for variant := int64(0); variant <= 6; variant++ {
-			if tier != "thorough" && variant <= 1 && mode != 2 {
-				continue // quick tier: DISCOVER variants in secondary mode only (the allocation code does not depend on the mode)
+			if tier != "thorough" && variant == 0 && mode != 2 {
+				continue // quick tier: DISCOVER with requested address / parameter list in secondary mode only
 			}
 			jobs = append(jobs, Job{Pkg: "handlers/dhcp4_spoofer", Func: "VerifC11Step", Args: []int64{mode, variant, 0}, SplitN: 4, Cfg: c, Reach: r})
 			if tier == "thorough" {
